@@ -131,6 +131,19 @@ def explore_c01(rng, tier, res, deep=False):
             cases.append((f'$["{esc}"]', pdoc))
             cases.append((f"$['{esc}', 'x{esc}']", pdoc))
             cases.append((f"$..['{esc}']", {"k": pdoc, "l": [pdoc]}))
+    # every selector applied to a SCALAR reached by a singular path, a wildcard or a descendant segment: a JSON string is
+    # not an array of characters and not an object (a Python str is subscriptable, sliceable and iterable), numbers,
+    # booleans and null have no children
+    scalars = ["xyz", "", "0", 5, 0, True, False, None, 1.5, "a\U0001F600b"]
+    sdoc = {"a": "xyz", "b": {"c": "héllo", "d": 7, "e": True, "f": None}, "s": scalars, "0": "zero", "n": 12345, "l": ["ab", ["cd"], {"a": "ef"}]}
+    for prefix in ("$.a", "$['a']", "$.b.c", "$.b.d", "$.b.e", "$.b.f", "$.s[0]", "$.s[3]", "$.s[-1]", "$.n", "$.l[0]", "$.l[1][0]", "$.l[2].a", "$.s[*]", "$..a", "$..c", "$.s[9]", "$[0]"):
+        for sel in ("[0]", "[-1]", "[2]", "[1:]", "[:]", "[::-1]", "[*]", ".*", "['0']", ".length", ".a", "[0, 1]", "[0][0]", "..[0]", "..*", "[-3]", "[0:1]", "['a', 0]"):
+            cases.append((prefix + sel, sdoc))
+    for v in scalars:
+        for q in ("$[0]", "$[-1]", "$[:]", "$[*]", "$.*", "$..*", "$..[0]", "$['a']", "$.a", "$[0, 'a']"):
+            cases.append((q, v))
+            cases.append(("$.k" + q[1:], {"k": v}))
+            cases.append(("$[0]" + q[1:], [v]))
     sweep(res, BASE_ENV, cases, "C01", expect_valid=True)
     if tier == "thorough":
         small_scope_c01(res)
@@ -457,6 +470,20 @@ def explore_c06(rng, tier, res, deep=False):
         cases.append((f"$[?@.a {op} @.b]", [{"a": a, "b": b}]))
         if rng.random() < 0.3:
             cases.append((f"$[?@.b {op} @.a]", [{"a": a, "b": b}]))
+    # several comparisons in ONE query whose literals Python's == (and hash) cannot tell apart although they are different
+    # JSON values (true / 1 / 1.0, false / 0 / 0.0 / -0.0), or that spell the same value differently: each comparison
+    # is against its own literal
+    twins = [["true", "1", "1.0", "1e0"], ["false", "0", "0.0", "-0.0", "0e0"], ["'1'", "1", "true"], ["null", "0", "false", "''"], ["'a'", '"a"', "'\\u0061'"]]
+    tdoc = [1, True, 1.0, False, 0, 0.0, -0.0, None, "1", "", "true", "a", 2, [1], {"a": 1}]
+    for grp in twins:
+        for a, b in itertools.permutations(grp, 2):
+            for op1, op2 in (("==", "=="), ("!=", "!="), ("==", "<="), ("<", "=="), (">=", "!=")):
+                for conj in ("||", "&&"):
+                    cases.append((f"$[?@ {op1} {a} {conj} @ {op2} {b}]", tdoc))
+            cases.append((f"$[?@ == {a}][?@ == {b}]", [tdoc, [tdoc]]))
+            cases.append((f"$[?@ == {a}, ?@ == {b}]", tdoc))
+            cases.append((f"$[?{a} == @ || vf({b}) == @]", tdoc))
+            cases.append((f"$[?@[?@ == {a}] && @[?@ == {b}]]", [tdoc, [1], [True], [0], [False]]))
     sweep(res, PROBE_ENV, cases, "C06", check_ast_iter=(tier != "thorough"), expect_valid=True)
     comparand_series(rng, tier, res)
 
@@ -613,7 +640,8 @@ def explore_c10(rng, tier, res, deep=False):
             [{"a": gen._copy(v)} for v in ARG_VALUES] + [{}]]
     lits = ["0", "1", "2", "3", "'abc'", "null", "true", "1.5"]
     exprs = []
-    for arg in ["@", "@.a", "$", "$[0]", "@[0]", "'abc'", "\"a😀\"", "1", "null", "value(@)", "value(@.*)", "vf(@)", "vf(@.a)"]:
+    for arg in ["@", "@.a", "$", "$[0]", "@[0]", "'abc'", "\"a😀\"", "1", "null", "value(@)", "value(@.*)", "vf(@)", "vf(@.a)",
+                "length(@)", "length(@.a)", "@.missing", "vf(@.missing)", "length(@.missing)", "value(@.missing)"]:
         exprs.append(f"length({arg})")
         exprs.append(f"vf({arg})")
     for arg in ["@", "@.*", "@..*", "@.a", "$", "$.*", "$[*].a", "@[0,0]", "@[?@]", "nf(@.*)", "nf(@)"]:
@@ -633,6 +661,17 @@ def explore_c10(rng, tier, res, deep=False):
     if tier != "thorough":
         rng.shuffle(cases)
         cases = cases[: (3000 if deep else 1200)]
+    # a result that is Nothing IS the special result, wherever it came from (length() of a number, value() of several
+    # nodes, a user function handing its argument on): compared with a query that selects nothing, with another such
+    # result, on either side — always part of the run
+    nres = ["length(@)", "length(@.a)", "value(@.*)", "value(@.missing)", "vf(@.missing)", "vf(length(@))", "length(length(@))", "value(@..*)"]
+    nrhs = ["@.missing", "$.missing", "value(@.missing)", "length(@.missing)", "vf(@.nope)", "@[99]"]
+    for e in nres:
+        for r in nrhs:
+            for op in ("==", "!=", "<=", ">=", "<"):
+                for d in docs:
+                    cases.append((f"$[?{e} {op} {r}]", d))
+                    cases.append((f"$[?{r} {op} {e}]", d))
     sweep(res, PROBE_ENV, cases, "C10", expect_valid=True)
     cross_env_stage(rng, res, cases[:: max(1, len(cases) // (400 if tier != "thorough" else 4000))])
     callargs_check(rng, tier, res, docs, exprs + tests)
@@ -806,7 +845,10 @@ def explore_c18(rng, tier, res, deep=False):
     )
     limits = [1, 2, 3, 4, 5, 6, 100] if tier == "thorough" else [1, 2, 3, 5, 100]
     reps = 6 if tier == "thorough" else (3 if deep else 1)
-    qs = ["$..*", "$..a", "$..[0]", "$..[?@]", "$[?@..*]", "$..[*]..a", "$..['a',0]"]
+    qs = ["$..*", "$..a", "$..[0]", "$..[?@]", "$[?@..*]", "$..[*]..a", "$..['a',0]",
+          # the descendant segment inside a function argument / under a comparison: the error is still the recursion error
+          "$[?count(@..*) > 0]", "$[?value(@..a) == 1]", "$[?count($..*) >= 0]", "$[?length(value(@..a)) == 1 || count(@..[0]) > 99]"]
+    one_down = {"$[?@..*]", "$[?count(@..*) > 0]", "$[?value(@..a) == 1]", "$[?length(value(@..a)) == 1 || count(@..[0]) > 99]"}
     for lim in limits:
         desc = dict(BASE_ENV)
         desc["maxDepth"] = lim
@@ -817,7 +859,7 @@ def explore_c18(rng, tier, res, deep=False):
                 for _ in range(reps):
                     doc = shaped_doc(rng, d, where)
                     assert doc_depth(doc) == d, (doc, d)
-                    for q in qs if tier == "thorough" else rng.sample(qs, 3):
+                    for q in qs if tier == "thorough" else rng.sample(qs[:7], 3) + rng.sample(qs[7:], 1):
                         cases.append((q, doc))
                         meta.append((lim, d, where, q))
         before = len(res.violations)
@@ -837,7 +879,7 @@ def explore_c18(rng, tier, res, deep=False):
                 outcome = "PY:" + type(exc).__name__
             dd = m[1]
             # '$[?@..*]' applies the descendant segment to the children, one level down
-            eff = dd - 1 if q == "$[?@..*]" else dd
+            eff = dd - 1 if q in one_down else dd
             want = "ok" if eff <= lim else "rec"
             if q == "$..[*]..a":
                 want = "ok" if dd <= lim else "rec"
